@@ -34,13 +34,15 @@ RULE += " The store's lock is replaced by the deadlock-detecting shim, so an ope
 
 CUR = ["ATP", "GTP", "NADH"]
 
-_cap = st.one_of(st.sampled_from([0, 0, 1, 2]), st.integers(0, 40))
+# astronomically large amounts are non-negative integers too (Python ints are unbounded; float conversions are not)
+_HUGE = [10 ** 310, 2 * 10 ** 310, 10 ** 400, 10 ** 310 - 1]
+_cap = st.integers(0, 39).flatmap(lambda k: st.sampled_from(_HUGE) if k == 0 else st.one_of(st.sampled_from([0, 0, 1, 2]), st.integers(0, 40)))
 _cfg = st.fixed_dictionaries({
     "budget": _cap, "gtp": _cap, "nadh": _cap,
-    "max_debt": st.one_of(st.sampled_from([0, 10, 100]), st.integers(0, 40)),
+    "max_debt": st.integers(0, 29).flatmap(lambda k: st.sampled_from(_HUGE) if k == 0 else st.one_of(st.sampled_from([0, 10, 100]), st.integers(0, 40))),
     "interest": st.sampled_from([0.0, 0.1, 0.5]),
 })
-_amt = st.one_of(st.integers(0, 12), st.integers(0, 60))
+_amt = st.integers(0, 39).flatmap(lambda k: st.sampled_from(_HUGE) if k == 0 else st.one_of(st.integers(0, 12), st.integers(0, 60)))
 _cur = st.sampled_from([0, 0, 0, 1, 2])
 _op = st.one_of(
     st.tuples(st.just("consume"), _amt, _cur, st.booleans(), st.sampled_from([0, 5, 10])),
@@ -86,8 +88,23 @@ EXHAUSTIVE_NOTE = {
 }
 
 
+def _huge_cases():
+    H = 10 ** 310
+    peer = {"budget": 6, "gtp": 2, "nadh": 2, "max_debt": 0, "interest": 0.0}
+    cfgs = [{"budget": 1, "gtp": 0, "nadh": 0, "max_debt": H, "interest": 0.5}, {"budget": H, "gtp": 0, "nadh": 0, "max_debt": H, "interest": 0.1},
+            {"budget": 1, "gtp": 0, "nadh": H, "max_debt": 0, "interest": 0.0}, {"budget": H, "gtp": H, "nadh": H, "max_debt": 0, "interest": 0.0}]
+    seqs = [[["consume", H, 0, True, 10]], [["consume", 2 * H, 0, True, 10], ["interest"]], [["consume", 10 * H, 0, False, 0], ["consume", 0, 0, False, 0]],
+            [["regen", H, 0]], [["transfer", H, 0, 0]], [["convert", H]], [["consume", H, 0, True, 10], ["regen", 0, 0], ["wake"], ["consume", 0, 0, False, 10]],
+            [["consume", H - 1, 0, False, 0], ["consume", 1, 0, False, 0], ["consume", 1, 0, True, 10]]]
+    for cfg in cfgs:
+        for seq in seqs:
+            yield {"cfg": cfg, "peer": peer, "ops": seq}
+
+
 def enumerate_cases(tier):
     import itertools
+    for case in _huge_cases():
+        yield case
     depth = 3 if tier == "thorough" else 2
     peer = {"budget": 6, "gtp": 2, "nadh": 2, "max_debt": 0, "interest": 0.0}
     for cfg in _ENUM_CFGS:
@@ -210,6 +227,9 @@ def _judge(case):
                 _, cost, c, debt_ok = op
                 sn0 = _snap(a, ET)
                 bound = (max(0, _w(sn0)) + a.max_debt + max(0, sn0[3])) // cost + 2
+                if bound > 5000:
+                    out.skipped += 1          # an astronomically rich store: the halting argument holds, running the loop to the end does not fit in a test
+                    continue
                 n_ok = 0
                 halted = False
                 for _k in range(bound + 3):
